@@ -2739,3 +2739,105 @@ def lookups_follow_the_ranking(ctx):
     from . import lookupexec
 
     lookupexec.law(ctx, "reference", "repeat-is-first")
+
+
+# ---------------------------------------------------------------------------------------- combinations, type level, by value
+def combinations_apply_member_wise(ctx):
+    """The type-level test of the package's union and intersection (`__is_supertype__`: is a method declared on the
+    combination applicable to a class), interpreted on nested combinations - a union inside an intersection, an
+    intersection inside a union, either inside its own kind - for every way a class can satisfy the three atoms: the
+    answer is some-member for a union and every-member for an intersection, each nested member answering through its
+    own test."""
+    import itertools
+
+    from ..metainterp import HostFn, HostInterp, Instance, Raised, Record
+
+    repo = ctx.repo
+    metas = [c for c in repo.all_classes() if "type" in c.base_names and "__and__" in c.methods and "__eq__" in c.methods]
+    ctx.require(len(metas) == 1, "forwarding metaclass not found")
+    M = metas[0]
+    mraw = repo.raw_methods(M)
+    hattr = None
+    new = M.methods.get("__new__")
+    if new is not None:
+        for d in ast.walk(new.node):
+            if isinstance(d, ast.Dict) and len(d.keys) == 1 and isinstance(d.keys[0], ast.Constant):
+                hattr = d.keys[0].value
+    ctx.require(hattr is not None, f"{M.key}: handler attribute not found")
+    kinds = {c.name: c for c in repo.all_classes() if c.name in ("Union", "Intersection")}
+    ctx.require(set(kinds) == {"Union", "Intersection"}, "union / intersection classes not found")
+    raws = {k: repo.raw_methods(c) for k, c in kinds.items()}
+    hook = "__is_supertype__"
+    ctx.require(all(hook in r for r in raws.values()), f"union / intersection without {hook}")
+
+    def made(kind, members):
+        h = Instance(kind, raws[kind])
+        h.__dict__.update(types=tuple(members), __args__=tuple(members))
+        t = Instance(M.name, mraw)
+        t.__dict__[hattr] = h
+        t.__dict__["__args__"] = tuple(members)
+        return t
+
+    def plain(label):
+        h = Instance("SingleFunctionHandler", {})
+        h.__dict__.update(label=label)
+        t = Instance(M.name, mraw)
+        t.__dict__[hattr] = h
+        t.__dict__["label"] = label
+        return t
+
+    atoms = {n: plain(n) for n in ("A", "B", "H")}
+
+    def accepts(t, v):
+        h = t.__dict__.get(hattr)
+        if isinstance(h, Instance) and h._cls_name in kinds:
+            q = any if h._cls_name == "Union" else all
+            return q(accepts(m, v) for m in h.types)
+        return v[t.__dict__["label"]]
+
+    funcs = {n: g.node for n, g in M.module.funcs.items() if g.parent is None and g.cls is None and not g.node.decorator_list}
+    holder = {}
+
+    def subclasscheck(cls_, t):
+        """the subtype test as the hooks see it: a combination answers through its own hook, an atom by the class"""
+        h = t.__dict__.get(hattr) if isinstance(t, Instance) else None
+        if isinstance(h, Instance) and h._cls_name in kinds:
+            return holder["hi"].call_function(raws[h._cls_name][hook], [h, cls_], {}, {})
+        return cls_.v[t.__dict__["label"]]
+
+    hi = HostInterp(mraw, Record(), {}, globals_env={"subclasscheck": HostFn(subclasscheck)}, classes={}, functions=funcs)
+    holder["hi"] = hi
+    A_, B_, H_ = atoms["A"], atoms["B"], atoms["H"]
+    shapes = {
+        "H & (A | B)": made("Intersection", (H_, made("Union", (A_, B_)))),
+        "(A | B) & H": made("Intersection", (made("Union", (A_, B_)), H_)),
+        "H | (A & B)": made("Union", (H_, made("Intersection", (A_, B_)))),
+        "(A & B) & H": made("Intersection", (made("Intersection", (A_, B_)), H_)),
+        "(A | B) | H": made("Union", (made("Union", (A_, B_)), H_)),
+        "A & B": made("Intersection", (A_, B_)),
+        "A | B": made("Union", (A_, B_)),
+    }
+    values = [dict(zip("ABH", bits)) for bits in itertools.product((True, False), repeat=3)]
+    for kind, c in kinds.items():
+        ctx.touch(c.methods[hook])
+    bad = {}
+    for label, t in shapes.items():
+        top = t.__dict__[hattr]
+        for v in values:
+            cls_ = Record(v=v, kind="a class")
+            try:
+                got = hi.call_function(raws[top._cls_name][hook], [top, cls_], {}, {})
+            except (AnalysisError, Raised, TypeError, AttributeError, KeyError) as e:
+                raise AnalysisError(f"{kinds[top._cls_name].key}.{hook}: not interpretable on {label}: {e}")
+            want = accepts(t, v)
+            if bool(got) != want and top._cls_name not in bad:
+                holds = ", ".join(k for k, x in v.items() if x) or "none of A, B, H"
+                bad[top._cls_name] = f"`{label}` is {'applicable' if got else 'not applicable'} to a class that satisfies {holds}, which {'does not meet' if not want else 'meets'} the combination"
+    for kind, c in kinds.items():
+        ctx.ob(
+            f"{c.key}.{hook}:member-wise",
+            c.methods[hook].loc(),
+            f"a method declared on {'a union' if kind == 'Union' else 'an intersection'} is applicable to a class exactly when {'some member' if kind == 'Union' else 'every member'} is, nested combinations answering through their own test (interpreted on {len(shapes)} shapes x 8 kinds of class)",
+            kind not in bad,
+            bad.get(kind, "") + ": a nested combination is not asked as a whole (its members are tested as if they were members of the outer one)",
+        )
